@@ -191,7 +191,8 @@ static struct iv_timer_ **iv_timer_get_node(struct iv_state *st, int index)
 	struct iv_timer_ratnode *r;
 	int i;
 
-	if (index >> ((st->rat_depth + 1) * IV_TIMER_SPLIT_BITS) != 0) {
+	if ((st->rat_depth + 1) * IV_TIMER_SPLIT_BITS < 8 * (int)sizeof(index) - 1 &&
+	    index >> ((st->rat_depth + 1) * IV_TIMER_SPLIT_BITS) != 0) {
 		st->rat_depth++;
 
 		r = iv_timer_allocate_ratnode();
